@@ -69,7 +69,7 @@ def normalise(plan):
         return plan
     if not plan["chain"]:
         plan["chain"] = [{"total_timesteps": 5, "total_episodes": None}]
-    return plan
+    return trainplan.sanitize(plan)
 
 
 def execute(plan):
